@@ -97,10 +97,13 @@ func adversarialNames(rng *rand.Rand, prefix string, n, bits int, used24 map[uin
 	return out
 }
 
-var c17SpecialNames = []string{"lit\\key", "50%", "a*b", "q?z", "[br]acket", "back\\", "plain-literal"}
+var c17SpecialNames = []string{"lit\\key", "50%", "a*b", "q?z", "[br]acket", "back\\", "plain-literal",
+	// white space at the ends of a name or a pattern is data like any other byte
+	" lead:1", "lead:1", "trail:1 ", "trail:1", "\tboth\t", "both", " ", "in ner"}
 
 // patterns that address the special names: escapes only, no wildcard / escapes plus wildcards / plain literal
-var c17SpecialPatterns = []string{"lit\\\\key", "a\\*b", "q\\?z", "\\[br\\]acket", "50\\%", "plain-literal", "pl\\ain-literal", "a\\**", "*\\?*", "back\\\\", "LITERAL"}
+var c17SpecialPatterns = []string{"lit\\\\key", "a\\*b", "q\\?z", "\\[br\\]acket", "50\\%", "plain-literal", "pl\\ain-literal", "a\\**", "*\\?*", "back\\\\", "LITERAL",
+	" lead:*", "*:1 ", "\tboth\t", " ", "lead:?", " *", "* ", "in ner", "in\\ ner"}
 
 type c17Names struct {
 	Stable, Pre, New, Never []string
@@ -806,6 +809,14 @@ func checkC17(r *verdict.Run) {
 				c2.prechurn = c2.prechurn % 200
 			}
 			cases = append(cases, c2)
+		}
+	}
+	// every special pattern once per command on a small stable collection and once on a churning one: which pattern a
+	// case above gets is drawn, here none is left out
+	for _, kind := range []string{"scan", "hscan", "sscan"} {
+		for i, pat := range c17SpecialPatterns {
+			cases = append(cases, c17Case{kind: kind, size: 8, count: []int{1, 10, 100}[i%3], script: "none", match: pat})
+			cases = append(cases, c17Case{kind: kind, size: 24, count: []int{7, 2, 10}[i%3], script: "churn", match: pat, viaCopy: i%2 == 1})
 		}
 	}
 	if rp := os.Getenv("C17_REPLAY"); rp != "" {
